@@ -14,7 +14,7 @@ CONSTANTS LM,        \* import statements in main
           LB,        \* import statements per module body
           MB,        \* import statements in all module bodies together
           STYLE,     \* "small" | "full": menu of main statements
-          WITHC,     \* a fourth module file c
+          WITHC,     \* a fourth module file A (next to a)
           EMIT       \* print CASE lines
 
 VARIABLES w, s
@@ -23,7 +23,7 @@ vars == <<w, s>>
 A == <<"a">>
 B == <<"b">>
 AB == <<"a", "b">>
-C == <<"c">>
+C == <<"A">>                       \* differs from "a" by case only: a different file, a different module
 ZZ == <<"zz">>                      \* never present
 OUT == <<"..", "outside">>          \* escapes the root: must never be loaded
 
